@@ -51,6 +51,9 @@ class VFSZip(VFS_Real):
 
     def save_cache(self) -> bool:
         cache_filename = self.get_cache_filename()
+        if not self.chain.iswritable(cache_filename):
+            # e.g. an archive inside another archive
+            return False
         cache_fspath = self.chain.getfspath(cache_filename)
         try:
             with shelve.open(cache_fspath, "n") as db:
@@ -382,8 +385,11 @@ class ZIPHandler(BaseHandler):
         while True:
 
             if pattern.search(basename) and self.vfs.isfile(basename):
-                # is_zipfile() accepts filenames as bytes, but the type stub is incorrect
-                if zipfile.is_zipfile(self.vfs.getfspath(basename)):  # noqa
+                # Look at the file through the VFS: inside another archive,
+                # getfspath() is not a path the operating system knows.
+                with self.vfs.open(basename, "rb") as fp:
+                    iszip = zipfile.is_zipfile(fp)
+                if iszip:
                     self.basename = basename
                     self.appendage = appendage
                     return True
